@@ -191,7 +191,7 @@ class C06(Check):
     )
     expected_probes = [
         "crash_inside_bulk", "crash_inside_delete_bucket", "fault_restart_dirty", "restart_lost_writes", "restart_clean", "fault_clock_backward",
-        "fault_slow_statement", "bulk_over_50", "bulk_over_100", "bulk_mixed_upsert_insert", "delete_live", "replace_last_blind", "client_read", "delete_bucket_with_events", "rejected_op_with_buffered_writes", "fault_commit_failed",
+        "fault_slow_statement", "bulk_over_50", "bulk_over_100", "bulk_mixed_upsert_insert", "delete_live", "replace_last_blind", "client_read", "delete_bucket_with_events", "rejected_op_with_buffered_writes", "fault_commit_failed", "page_cache_spill_run",
     ]
     assumptions = [
         "process death only: completed write()s survive (no power loss, torn pages, EIO or ENOSPC: Python's sqlite3 offers no VFS seam)",
@@ -204,6 +204,7 @@ class C06(Check):
         dens = run.get("density", 1.0)
         w = CrashWorld(run["backend"], rundir, density=dens, sample_rng=stream(run.get("sample_seed", 0), "crash-sample"))
         w.diagnose = bool(run.get("diagnose"))
+        w.allow_reuse = not run.get("spill")
         return w
 
     def gen(self, seed, idx, tier):
@@ -259,6 +260,21 @@ class C06(Check):
                     continue
             out.append(s)
         steps += out
+        if backend == "sqlite" and r.random() < 0.03:
+            # page-cache spill: a buffered transaction larger than SQLite's 2 MB cache forces pages to disk before
+            # COMMIT; whatever reaches the files must still be invisible to a process that reopens them
+            b = buckets[0]
+            steps = actors.creates(rs["meta"], [b], cfg)
+            steps.append({"op": "insertN", "b": b, "evs": [{"ev": self._small(uid, lat, k)} for k in range(r.choice([60, 1500]))], "actor": "importer"})
+            steps.append({"op": "read", "b": b, "limit": -1, "actor": "reader"})
+            for k in range(r.choice([12, 24])):
+                steps.append({"op": "delete", "b": b, "k": r.randrange(0, 100000), "actor": "editor"})
+                E = self._small(uid, lat, 5000 + k)
+                E["data"]["blob"] = "x" * 150_000
+                steps.append({"op": "insert1", "b": b, "ev": E, "actor": "importer"})
+            steps.append({"op": "restart_dirty", "actor": "operator"})
+            steps.append({"op": "insert1", "b": b, "ev": self._small(uid, lat, 999), "actor": "importer"})
+            return {"backend": backend, "steps": steps, "lat": lat, "density": 1.0, "sample_seed": 0, "tz_off_min": 0, "spill": True}
         density = r.choice([1.0, 1.0, 0.5, 0.2]) if backend != "peewee" else r.choice([0.3, 0.1, 0.05])
         if len(steps) > 400:
             density = min(density, 0.05)
@@ -266,7 +282,13 @@ class C06(Check):
             density = min(density, 0.2)
         return {"backend": backend, "steps": steps, "lat": lat, "density": density, "sample_seed": derive(seed, self.prop, idx, "sample"), "tz_off_min": r.choice([0, 0, -300, 180, 330]), "clock0": r.choice([1_700_000_000_000_000, 2_000_000_000_000_000])}
 
+    @staticmethod
+    def _small(uid, lat, k):
+        return {"ts": lat["base"] + k * 1_000_000, "off": 0, "dur": 1_000_000, "data": {"u": uid.next()}}
+
     def start(self, world, run):
+        if run.get("spill"):
+            world.probes["page_cache_spill_run"] += 1
         seams.CLOCK.set_local_offset(run.get("tz_off_min", 0))
         world.open()
 
